@@ -119,7 +119,7 @@ def fault_line(rng, kind, uniq):
         pre = f"{pad}@assert "
         return [pre + f"later{uniq} == 2"], (0, len(pre) + 1), [f"@defl later{uniq}, 3"]
     if kind == "die":
-        return [f'{pad}@die "stop here"'], (0, len(pad) + 1), []
+        return [pad + rng.choice(['@die "stop here"', "@die 3 + 4", "@die (2) * 5"])], (0, len(pad) + 1), []
     if kind == "duplicate":
         return [f"dup{uniq}:", "  nop", f"{pad}dup{uniq}:"], (2, len(pad) + 1), []
     raise ValueError(kind)
